@@ -11,7 +11,7 @@ From Coq Require Import List Bool ZArith String.
 From PE Require Import Base.QUtil Model.Geom2 Model.Filter Model.Matching Model.AP Model.FrameInv
                        Model.Transform Model.Heading
                        Proofs.Geom2Proofs Proofs.TransformProofs Proofs.HeadingProofs
-                       Proofs.APKinds Proofs.FrameInvProofs.
+                       Proofs.APKinds Proofs.FrameInvProofs Model.Clear Proofs.ClearEquiv.
 Import ListNotations.
 Open Scope Q_scope.
 
@@ -98,6 +98,20 @@ Theorem C07_ap_invariant : forall n ks ks',
 Proof. exact ap_of_kinds_equiv. Qed.
 Print Assumptions C07_ap_invariant.
 
+(* CLEAR (MOTA, MOTP, id switches): two histories of object results with the same identities, labels and
+   label decisions and with matching scores that are equal as numbers (sections C above) -- the ego and the
+   map rendering of one tracked scene -- give identical TP / FP / id-switch / result counters and equal
+   MOTA and MOTP, for every history length, every threshold table and both optimisation directions *)
+Theorem C07_clear_invariant : forall md (T T' : Clear.targets) numgt (h h' : list Clear.frame),
+  targets_equiv T T' -> Forall2 frame_equiv h h' ->
+  let k := make_clear md T numgt h in
+  let k' := make_clear md T' numgt h' in
+  c_tp (k_cnt k) = c_tp (k_cnt k') /\ c_fp (k_cnt k) = c_fp (k_cnt k') /\ c_sw (k_cnt k) = c_sw (k_cnt k') /\
+  c_num (k_cnt k) = c_num (k_cnt k') /\
+  oQ_equiv (k_mota k) (k_mota k') /\ oQ_equiv (k_motp k) (k_motp k').
+Proof. exact clear_frame_invariant. Qed.
+Print Assumptions C07_clear_invariant.
+
 (* ---- non-vacuity: a rational ego pose (yaw with cos = 3/5, sin = 4/5, translation (10, -7, 1/2)) ---------- *)
 Example C07_nonvacuous :
   let m := mkMotion (3 # 5) (4 # 5) (-40) (-7) (1 # 2) in
@@ -111,4 +125,18 @@ Example C07_nonvacuous :
 Proof.
   cbv zeta. split; [vm_compute; reflexivity|]. split; [vm_compute; discriminate|].
   split; vm_compute; discriminate.
+Qed.
+
+(* two renderings of a two-frame track whose scores are the same numbers written differently (1/2 = 2/4):
+   the hypotheses of C07_clear_invariant hold and the history is not trivial (one TP, one switch) *)
+Example C07_nonvacuous_clear :
+  let g (i : nat) (s : Q) := Some (mkG i 1 false true s) in
+  let h  := [[mkR 7 1 (g 0%nat (1 # 2))]; [mkR 8 1 (g 0%nat (1 # 4))]] in
+  let h' := [[mkR 7 1 (g 0%nat (2 # 4))]; [mkR 8 1 (g 0%nat (2 # 8))]] in
+  targets_equiv [(1%nat, 1)] [(1%nat, 2 # 2)] /\ Forall2 frame_equiv h h' /\
+  c_tp (k_cnt (make_clear Dist [(1%nat, 1)] 1 h)) = 1%nat /\ c_sw (k_cnt (make_clear Dist [(1%nat, 1)] 1 h)) = 1%nat.
+Proof.
+  cbv zeta. split; [repeat constructor; reflexivity|]. split.
+  - repeat constructor; simpl; try reflexivity.
+  - split; vm_compute; reflexivity.
 Qed.
